@@ -5,6 +5,7 @@ package slip
 import (
 	"fmt"
 	"strings"
+	"sync"
 )
 
 const (
@@ -110,11 +111,16 @@ func (f *Function) Eval(s *Scope, depth int) (result Object) {
 		s.InterruptCheck()
 	}
 
+	// Arguments are compiled in place on first use. The form can be shared
+	// with other threads so work on a copy taken under the lock.
 	args := make(List, len(f.Args))
+	compileMu.RLock()
+	copy(args, f.Args)
+	compileMu.RUnlock()
 	d2 := depth + 1
 	si := -1
 	var update []int
-	for i, arg := range f.Args {
+	for i, arg := range args {
 		si++
 		skip := false
 		if 0 < len(f.SkipEval) {
@@ -137,8 +143,7 @@ func (f *Function) Eval(s *Scope, depth int) (result Object) {
 			}
 		}
 		if list, ok := arg.(List); ok {
-			arg = ListToFunc(s, list, depth+1)
-			f.Args[i] = arg
+			arg = setCompiled(f.Args, i, ListToFunc(s, list, depth+1))
 		}
 		v := s.Eval(arg, d2)
 		switch v.(type) {
@@ -159,10 +164,29 @@ func (f *Function) Eval(s *Scope, depth int) (result Object) {
 	for _, u := range update {
 		a := args[u]
 		if _, ok := a.(Funky); ok {
-			f.Args[u] = a
+			_ = setCompiled(f.Args, u, a)
 		}
 	}
 	return
+}
+
+// compileMu protects the elements of forms that are replaced by their
+// compiled version when first evaluated.
+var compileMu sync.RWMutex
+
+// setCompiled replaces the list at index in args with the compiled version
+// unless that has already been done, maybe by another thread, in which case
+// that earlier version is kept. The compiled version in place is returned.
+func setCompiled(args List, index int, compiled Object) Object {
+	compileMu.Lock()
+	if _, ok := args[index].(List); ok {
+		args[index] = compiled
+	} else {
+		compiled = args[index]
+	}
+	compileMu.Unlock()
+
+	return compiled
 }
 
 // SkipArgEval returns true if the argument eval should be skipped.
@@ -412,10 +436,13 @@ func DescribeFunction(sym Symbol, pkg ...*Package) *FuncDoc {
 // argument. Then the argument is evaluated and returned. Non-list arguments
 // are just evaluated.
 func EvalArg(s *Scope, args List, index, depth int) (v Object) {
-	if list, ok := args[index].(List); ok {
-		args[index] = ListToFunc(s, list, depth+1)
+	compileMu.RLock()
+	arg := args[index]
+	compileMu.RUnlock()
+	if list, ok := arg.(List); ok {
+		arg = setCompiled(args, index, ListToFunc(s, list, depth+1))
 	}
-	v = s.Eval(args[index], depth)
+	v = s.Eval(arg, depth)
 	if list, ok := v.(List); ok && len(list) == 0 {
 		v = nil
 	}
